@@ -206,7 +206,8 @@ def mk(nbits):
                     box["tb_exc"] = e
                 finally:
                     turn.b_finish()
-            th = threading.Thread(target=b_main)
+            # (thread names are not unique: the second thread deliberately carries the first one's name)
+            th = threading.Thread(target=b_main, name=threading.current_thread().name)
             th.start()
             try:
                 withA = run_program("A", valsA, ksA, hpA, sA, pf)
